@@ -9,6 +9,8 @@ import (
 	"utilcheck/flow"
 	"utilcheck/lang"
 	"utilcheck/pred"
+
+	"golang.org/x/tools/go/ssa"
 )
 
 func init() {
@@ -391,8 +393,7 @@ func ruleC09Sem(e *Env) {
 	if dp == nil {
 		return
 	}
-	site := flow.FnName(dp)
-	pos := e.Pos(dp)
+	e.skeleton("C09.comp", "date", "pattern", "^<1>[-]<2>[-]<3>$")
 	comp := func(k int) pred.Summary {
 		return func(ev *pred.Evaluator, args []pred.Val) (pred.Val, error) {
 			return pred.Term{Fn: fmt.Sprintf("Date#%d", k), Args: args[:1]}, nil
@@ -421,7 +422,28 @@ func ruleC09Sem(e *Env) {
 			return sv, nil
 		}
 	}
-	const layout = "0000-00-00" // the extended layout; only the positions of '-' matter
+	basicBit, _ := tabConstInt(e, "date", "RuleDisableBasic")
+	// the tree is extracted once per layout (only the length and the positions of '-' matter) and rule setting:
+	// the construction and the guard must not depend on the number of year digits or on the separators
+	for _, vr := range []struct {
+		name, layout string
+		ruleSet      bool
+	}{
+		{"", "0000-00-00", false},
+		{" (basic)", "00000000", false},
+		{" (9-digit year)", "000000000-00-00", false},
+		{" (9-digit year, basic)", "0000000000000", false},
+		{" (RuleDisableBasic)", "0000-00-00", true},
+		{" (9-digit year, RuleDisableBasic)", "000000000-00-00", true},
+		{" (basic, RuleDisableBasic)", "00000000", true},
+	} {
+		ruleC09SemOn(e, dp, sums, vr.name, vr.layout, vr.ruleSet, basicBit)
+	}
+}
+
+func ruleC09SemOn(e *Env, dp *ssa.Function, sums map[string]pred.Summary, vname, layout string, ruleSet bool, basicBit int64) {
+	site := flow.FnName(dp)
+	pos := e.Pos(dp)
 	fixed := func(a, b pred.Val) (int, bool, bool) {
 		as, bs := a.String(), b.String()
 		c, isC := b.(pred.Const)
@@ -484,10 +506,16 @@ func ruleC09Sem(e *Env) {
 		}
 		return "", false
 	}
-	mk := func() []pred.Val { return []pred.Val{pred.Sym{Name: "input"}, pred.Sym{Name: "r"}} }
+	mk := func() []pred.Val {
+		if ruleSet {
+			return []pred.Val{pred.Sym{Name: "input"}, pred.Const{V: constant.MakeInt64(basicBit)}}
+		}
+		return []pred.Val{pred.Sym{Name: "input"}, pred.Sym{Name: "r"}}
+	}
+	expectNone := ruleSet && !strings.Contains(layout, "-")
 	leaves, err := extractTree(e.P.SSA, dp, mk, sums, fixed, keyOf, binDomain)
 	if err != nil {
-		e.S.Unk("C09.valid", site, "guard", "not evaluable: "+err.Error(), pos)
+		e.S.Unk("C09.valid", site, "guard"+vname, "not evaluable: "+err.Error(), pos)
 		return
 	}
 	names := []string{"year", "month", "day"}
@@ -537,20 +565,27 @@ func ruleC09Sem(e *Env) {
 	}
 	switch {
 	case und != "":
-		e.S.Unk("C09.valid", site, "guard", "not evaluable: "+und, pos)
-		e.S.Unk("C09.comp", site, "construction", "not evaluable: "+und, pos)
+		e.S.Unk("C09.valid", site, "guard"+vname, "not evaluable: "+und, pos)
+		e.S.Unk("C09.comp", site, "construction"+vname, "not evaluable: "+und, pos)
+		return
+	case expectNone:
+		if accepts > 0 {
+			e.S.Bad("C09.valid", site, "guard"+vname, "a text of the basic layout is accepted although RuleDisableBasic is set", pos, "20210101")
+		} else {
+			e.S.Ok("C09.valid", site, "guard"+vname, "no valuation accepts a text of the basic layout under RuleDisableBasic", pos)
+		}
 		return
 	case accepts == 0:
-		guardBad = "no valuation accepts a text of the extended layout"
+		guardBad = "no valuation accepts a text of this layout"
 	}
 	if guardBad != "" {
-		e.S.Bad("C09.valid", site, "guard", guardBad, pos, "2021-02-30")
+		e.S.Bad("C09.valid", site, "guard"+vname, guardBad, pos, "2021-02-30")
 	} else {
-		e.S.Ok("C09.valid", site, "guard", "accepted exactly when year, month and day of New(…) each equal the parsed numbers; every other valuation is an error", pos)
+		e.S.Ok("C09.valid", site, "guard"+vname, "accepted exactly when year, month and day of New(…) each equal the parsed numbers; every other valuation is an error", pos)
 	}
 	if compBad != "" {
-		e.S.Bad("C09.comp", site, "construction", compBad, pos, "")
+		e.S.Bad("C09.comp", site, "construction"+vname, compBad, pos, "")
 	} else if accepts > 0 {
-		e.S.Ok("C09.comp", site, "construction", "accepted value = New(number of capture 1, of capture 2, of capture 3)", pos)
+		e.S.Ok("C09.comp", site, "construction"+vname, "accepted value = New(number of capture 1, of capture 2, of capture 3)", pos)
 	}
 }
